@@ -8,7 +8,8 @@ from props.c05 import (impl, driver_line, agree_model, agree_spec, nontrivial_ke
 ID = 'C14'
 LEVEL = 'proof'
 CLUSTER = 'C'
-GEN_UNITS = ['Consts']
+GEN_UNITS = ['Consts', 'contacts_attrs', 'contacts_get_chains', 'contacts_extend_to_residue', 'contacts_get_contact_atoms',
+             'contacts_get_contact_residues']
 RULE = ('the C05 generator (2-5 chains on a 1/4-Angstrom lattice with distances exactly on / one step inside / outside the cutoffs 3, 5, 7, 8.5, 9; '
         'hydrogens, non-backbone and blank names) with residue tricks switched on: the same residue number shared across chains (60% of the chains '
         'start at a common number), the same number with a different residue name inside a chain, numbering that goes back, negative numbers. '
